@@ -1097,6 +1097,8 @@ class Engine:
             return c.setitem(self, k, v)
         if isinstance(c, _MapLike):
             return c.setitem(self, k, v)
+        if isinstance(c, Rec) and "__dict_storage__" in c.attrs:
+            return self.setitem(c.attrs["__dict_storage__"], k, v)
         if self.is_native_concrete(c) and not is_sym(k) and not _contains_sym(k) and not is_sym(v) and not _contains_sym(v):
             self._concrete(lambda: c.__setitem__(k, v))
             return
@@ -1613,6 +1615,8 @@ class Engine:
             f, _ = c.cls.lookup("__contains__")
             if f is not None:
                 return self.to_bool(self.call(Bound(f, c), [x], {}))
+            if "__dict_storage__" in c.attrs:
+                return self._contains(c.attrs["__dict_storage__"], x)
         raise Unsupported(f"'in' on {type(c).__name__}")
 
     # ---------------- attribute / item access ----------------
@@ -1623,6 +1627,8 @@ class Engine:
             if name == "__class__":
                 return o.cls
             f, owner = o.cls.lookup(name)
+            if f is None and "__dict_storage__" in o.attrs and name in ("get", "items", "keys", "values", "pop", "setdefault", "update", "copy"):
+                return self.builtins_model.container_method(self, o.attrs["__dict_storage__"], name)
             if f is None:
                 ga, _ = o.cls.lookup("__getattr__")
                 if ga is not None:
@@ -1652,6 +1658,14 @@ class Engine:
                 if isinstance(c, ClassV) and name in c.ns:
                     return self.bind_member(c.ns[name], o.obj, c)
             if name == "__init__":
+                if isinstance(o.obj, Rec) and "__dict_storage__" in o.obj.attrs and any(isinstance(c, NativeFn) and c.name == "dict" for c in mro[k + 1:]):
+                    st = o.obj.attrs["__dict_storage__"]
+
+                    def dict_init(*a, **kw):
+                        for src in a:
+                            st.update(src if isinstance(src, dict) else dict(self.iterate(src)))
+                        st.update(kw)
+                    return NativeFn("dict.__init__", dict_init)
                 return NativeFn("object.__init__", lambda *a, **k: None)
             raise PyRaise(AttributeError, (name,))
         if is_obj(o):
@@ -1822,6 +1836,8 @@ class Engine:
             f, _ = c.cls.lookup("__getitem__")
             if f is not None:
                 return self.call(Bound(f, c), [k], {})
+            if "__dict_storage__" in c.attrs:
+                return self.getitem(c.attrs["__dict_storage__"], k)
         if self.is_native_concrete(c) and not is_sym(k) and not _contains_sym(k):
             return self._concrete(lambda: c[k])
         if isinstance(c, (list, tuple, dict, str, range)):
@@ -1864,6 +1880,8 @@ class Engine:
             f, _ = v.cls.lookup("__iter__")
             if f is not None:
                 return self.iterate(self.call(Bound(f, v), [], {}))
+            if "__dict_storage__" in v.attrs:
+                return list(v.attrs["__dict_storage__"].keys())
         if isinstance(v, _MapLike):
             return v.iterate(self)
         if isinstance(v, (SeqV, _SymIter)) or is_obj(v):
@@ -1942,6 +1960,8 @@ class Engine:
                 return PyRaise(cls, tuple(args))
             return PyRaise(cls, tuple(args))
         o = Rec(cls)
+        if any(isinstance(c, NativeFn) and c.name == "dict" for c in cls.mro()):
+            o.attrs["__dict_storage__"] = {}          # instance of a dict subclass
         if cls.is_dataclass:
             fields = []
             for c in reversed(cls.mro()):
@@ -1972,8 +1992,14 @@ class Engine:
     def call_function(self, f, args, kwargs, node=None, force_inline=False):
         key = f.key
         h = None if force_inline else self.policy.get(key)
+        if force_inline and self.path is not None and self.path.__dict__.get("root_module") is None:
+            self.path.root_module = f.module
         if h is None and not force_inline:
             if f.nested or self.policy.get("default") == "inline" or any(key.startswith(pre) for pre in self.policy.get("inline", ())):
+                h = "inline"
+            elif self.path.__dict__.get("root_module") is f.module and self.policy.get("same_module", "inline") == "inline":
+                # a helper in the module of the function under proof without a contract of its own is part of that
+                # function's implementation: it is executed, not abstracted (a refactoring into helpers changes nothing)
                 h = "inline"
             else:
                 h = "opaque"
